@@ -1,9 +1,9 @@
-Require Import PPLV.Grid.QVec PPLV.Grid.IntLin PPLV.Grid.GridSem PPLV.Grid.GridRef PPLV.Grid.GridFreq PPLV.Grid.GridOps2.
+Require Import PPLV.Grid.QVec PPLV.Grid.IntLin PPLV.Grid.GridSem PPLV.Grid.GridRef PPLV.Grid.GridFreq PPLV.Grid.GridOps2 PPLV.Grid.GridOpsSpec PPLV.Grid.GridOpsSpec2.
 Require Extraction.
 Require Import ExtrOcamlBasic.
 Extraction Language OCaml.
 Cd "../ocaml/gen".
 Extraction "grid.ml" cgs_to_gens gens_add_cgs gens_incl gens_equiv dd_agree dims_ok is_empty_b is_universe_b
   contains_b is_disjoint_b relation_cg is_discrete_b is_bounded_b join add_gen affine_image affine_preimage
-  add_dims_embed project_cgs remove_higher gens_of_ppl qgens_sat_cgs qgens_of mem alat_of frequency unconstrain time_elapse gen_image gen_preimage subsumes map_dims concat shift_cg rename_cg.
+  add_dims_embed project_cgs remove_higher gens_of_ppl qgens_sat_cgs qgens_of mem alat_of frequency unconstrain time_elapse gen_image gen_preimage subsumes map_dims concat shift_cg rename_cg gen_image_lhs gen_preimage_lhs.
 Cd "../../coq".
